@@ -217,6 +217,9 @@ class Modes(Relation):
             # would only matter to a kernel that wrongly sub-samples (and
             # would then loop ~2^32 times)
             sub = 5
+        if mode == 'center' and sub not in (1, 5, None):
+            # likewise for centre mode (a kernel handed -1 loops ~2^32 times)
+            sub = 5
         reg = S.build(rs)
         ctx.label(cls, f'mode:{mode}', f'sub:{sub!r}')
         valid_mode = mode in ('center', 'exact', 'subpixels')
@@ -260,6 +263,16 @@ class Modes(Relation):
                 ctx.fail(f'{tag} | returns a mask instead of raising '
                          f'{"/".join(w.__name__ for w in want)}',
                          f'{type(m).__name__}')
+            if mode == 'center':
+                # 'center' is 'center' whatever subpixels= says
+                plain = reg.to_mask('center')
+                d = np.asarray(m.data)
+                ctx.check(np.array_equal(d, np.asarray(plain.data))
+                          and np.all((d == 0) | (d == 1)),
+                          f'{cls} mode=\'center\' | a subpixels argument '
+                          'changes the centre mask',
+                          f'subpixels={sub!r}: {int((d != np.asarray(plain.data)).sum())} '
+                          'pixels differ')
         ctx.nontrivial(want is not None)
 
 
